@@ -12,6 +12,14 @@ CLAIMED = {
          "Bounds: 0..2 entries (thorough 3) with key lengths 1..2 and value lengths 0..2, plus 255-byte strings with 1..2 entries; parser inputs up to 12 (thorough 16) bytes free-form. sort.SliceStable is an intrinsic (stable insertion sort calling the repo's less closure)."),
  "C12": ("Bounded symbolic model checking with value and width as free 64-bit variables: accept-iff-fits, big-endian layout and decode(encode) are discharged over the whole int64 x int64 space; dates over all int64 milliseconds through the real time package code.",
          "Division/multiplication by 1000/10^6 kernels are decided by cvc5 --solve-bv-as-int=sum when z3 times out. String lengths 0,1,2,255,256,257; reader inputs 0..6 and 255,256,257,300 bytes."),
+ "C03": ("Bounded symbolic model checking of every remainder-returning parser: remainder is a suffix, consumed extent equals the declared extent, re-parsing exactly the consumed bytes gives the same value (spare bytes are symbolic, i.e. for every appended x), and a proper prefix chosen by the solver/grid is rejected.",
+         "All cut points for the small parsers and RouterAddress; for the composite structures cut points 0,1,c/2,c-2,c-1 and +-1 around the signature start and the key block. Shapes as C01."),
+ "C08": ("Bounded symbolic model checking with concrete pointers: after parsing, every input cell is replaced by a fresh symbol (Havoc) and serialisation/accessors are asserted unchanged; aliasing is exact because slice headers are concrete in the executor.",
+         "Certificate, KeyCertificate, KeysAndCert/Destination/RouterIdentity with free type bytes; composites on the C01 shape grid."),
+ "C09": ("Bounded symbolic model checking with all four key-type bytes free over the 16-bit code space (the solver splits by table entry and default): no path to a Destination/RouterIdentity yields a prohibited type, and permitted supported pairs are accepted.",
+         "Embedded paths (RouterInfo, LeaseSet, LeaseSet2, MetaLeaseSet) are checked for the prohibited pairs whose key sizes equal a permitted pair's. DecryptInnerData/CreateBlindedDestination paths are covered under C16 stubs only."),
+ "C10": ("Exhaustive over the code space: one symbolic int code covers every value; each lookup is asserted equal to the specification table written independently in the harness. Layout of the 384-byte block for every accepted type pair with symbolic content.",
+         "Lookups: GetSignatureSize, GetSigningKeySize, GetCryptoKeySize, GetKeySizes, signature.SignatureSize, offline_signature.*Size, the two size maps, KeyCertificate size methods."),
 }
 NA_REASON = "check under construction in this session; it will be claimed once its harnesses run clean on the unchanged tree"
 
